@@ -145,6 +145,22 @@ pub open spec fn ack_ids(fx: Seq<Fx>) -> Seq<int>
         match fx.last() { Fx::Ack { cb, ok } => p.push(cb), _ => p }
     }
 }
+/// paths of the Unlink events of a trace, in order
+pub open spec fn unlink_paths(fx: Seq<Fx>) -> Seq<String>
+    decreases fx.len()
+{
+    if fx.len() == 0 { Seq::empty() } else {
+        let p = unlink_paths(fx.drop_last());
+        match fx.last() { Fx::Unlink { path, ok } => p.push(path), _ => p }
+    }
+}
+pub proof fn lemma_unlink_step(fx: Seq<Fx>, n: int, e: Fx)
+    requires 0 <= n <= fx.len()
+    ensures unlink_paths(fx.push(e).skip(n)) == (match e { Fx::Unlink { path, ok } => unlink_paths(fx.skip(n)).push(path), _ => unlink_paths(fx.skip(n)) })
+{
+    assert(fx.push(e).skip(n) =~= fx.skip(n).push(e));
+    assert(fx.skip(n).push(e).drop_last() =~= fx.skip(n));
+}
 pub proof fn lemma_cb_ids_step<T: Types>(ws: Seq<WriteRequest<T>>, k: int)
     requires 0 <= k < ws.len()
     ensures cb_ids::<T>(ws.take(k + 1)) == (match ws[k].callback { Some(c) => cb_ids::<T>(ws.take(k)).push(c.cb_id()), None => cb_ids::<T>(ws.take(k)) })
